@@ -22,11 +22,10 @@ STR_MEMBERS = {"kty", "use", "alg", "kid", "x5u", "x5t", "x5t#S256", "crv",
                "k", "n", "e", "d", "p", "q", "dp", "dq", "qi", "x", "y"}
 SIG_OPS, ENC_OPS = ["sign", "verify"], ["encrypt", "decrypt", "wrapKey", "unwrapKey", "deriveKey", "deriveBits"]
 
-# Accepted-although-wrongly-typed members that are recorded as deviations
-# (evidence notes) and not as violations: `"use": ["sig"]` and `"key_ops": "sign"`
-# pass registry.in_choices.  Set to True to report them through ctx.violation
-# (signature {"kind": "malformed-accepted", "mutation": "retype-choices", "member": ...}).
-REPORT_CHOICES_RETYPE = False
+# `"use": ["sig"]` (JSON array) and `"key_ops": "sign"` (JSON string) must be refused
+# (registry.in_choices(choices, is_list) since /repo 7fefb53): accepted => violation with
+# signature {"kind": "malformed-accepted", "mutation": "retype-choices", "member": ...}.
+REPORT_CHOICES_RETYPE = True
 
 
 def call(f, *a, **k):
@@ -945,7 +944,7 @@ def run(ctx):
         if r[0] == "ok":
             bad = [m for m in REQUIRED[kt] if m not in d]
             bad += [m for m in d if m in (STR_MEMBERS | LIST_MEMBERS) and m in (["kty", "use", "key_ops", "alg", "kid", "x5u", "x5c", "x5t", "x5t#S256"] + VALUE_MEMBERS[kt] + (["crv"] if kt in ("EC", "OKP") else []))
-                    and not right_type(m, d[m]) and not (m in ("use", "key_ops"))]
+                    and not right_type(m, d[m])]
             if isinstance(d.get("use"), str) and isinstance(d.get("key_ops"), list):
                 allowed = SIG_OPS if d["use"] == "sig" else ENC_OPS
                 bad += ["use/key_ops"] if any(op not in allowed for op in d["key_ops"]) else []
